@@ -165,6 +165,18 @@ def run(ck, ctx):
         args = repr([um.expr_of_operand(a, 6) for _, t, c, _ in um.calls() for a in t["args"]])
         ck.ob("C28.4", "update-or-in", "entry" in names and "or_default" in names and "bitor_assign" in names and "'addr'" in args and "'set'" in args,
               "update_mem_accesses ORs `set` into the entry for `addr` (%s)" % names, "src/sim/observer.rs:%s" % um.line)
+    # MODIFIED is decided with `mem[addr] != data`: that comparison must be the structural equality of Word (both fields)
+    eqb = F.bodies.get("<sim::mem::Word as std::cmp::PartialEq>::eq")
+    wf = [f.get("name") for v in F.adts.get("sim::mem::Word", {}).get("variants", []) for f in v.get("fields", [])]
+    derived = eqb is not None and bool(eqb.exp)
+    handwritten_ok = False
+    if eqb is not None and not derived:
+        from lib import nf
+        got = nf.deep(F, eqb.path)
+        handwritten_ok = got in ("[Eq(arg1.data, arg2.data) in [0,0]] => 0 ; [Eq(arg1.data, arg2.data) in [1,1]] => Eq(arg1.init, arg2.init)",
+                                 "[Eq(arg1.init, arg2.init) in [0,0]] => 0 ; [Eq(arg1.init, arg2.init) in [1,1]] => Eq(arg1.data, arg2.data)")
+    ck.ob("C28.2", "word-equality-structural", (derived or handwritten_ok) and sorted(wf) == ["data", "init"],
+          "`!=` on Word compares data and init (derived PartialEq: %s; fields %s): a store that changes any bit of the word counts as a modification" % (derived, wf), "src/sim/mem.rs")
     ck.include("C09", ctx, "C28.5", {"C09.2", "C09.3"}, "every program access goes through read_mem/write_mem with the machine's tracked context")
     ck.assume("all program accesses go through read_mem/write_mem with a tracked context (C09.2, C09.3), including vector fetches and RTI pops (C08, C10)")
     ck.assume("I/O addresses are recorded as well; the property restricts its claim to non-I/O addresses")
